@@ -1846,10 +1846,15 @@ impl Monitor for C17 {
             // exhaustive over (hlen, plen)
             ("arp_all", PAIRS * tier.pick(8, 80)),
             ("arp_eth", tier.pick(6_000_000, 60_000_000)),
+            ("api", tier.pick(20_000, 200_000)),
         ]
     }
 
     fn run_case(&mut self, engine: &str, idx: u64, rng: &mut Prng, rep: &mut Report) {
+        if engine == "api" {
+            super::api::c17(rep, rng);
+            return;
+        }
         let st = &mut self.st;
         match engine {
             "icmp4_all" => {
